@@ -9,6 +9,7 @@ import (
 	"path/filepath"
 	"strings"
 	"sync"
+	"time"
 
 	"github.com/folbricht/tempfile"
 )
@@ -51,6 +52,10 @@ func (s LocalStore) GetChunk(id ChunkID) (*Chunk, error) {
 	b, err := ioutil.ReadFile(p)
 	if os.IsNotExist(err) {
 		return nil, ChunkMissing{id}
+	}
+	if err == nil && s.UpdateTimes {
+		now := time.Now()
+		os.Chtimes(p, now, now)
 	}
 	return NewChunkFromStorage(id, b, s.converters, s.Opt.SkipVerify)
 }
